@@ -76,7 +76,7 @@ def to_real(nodes, data):
                 cfg["context_key"] = nd[3]
             real.append(cfg)
         elif k == "slice":
-            cls = {"OpAdd": lib.SlAdd, "OpAddDef": lib.SlAddDef, "PrParam": lib.SlPrParam}[nd[1]]
+            cls = {"OpAdd": lib.SlAdd, "OpAddDef": lib.SlAddDef, "PrParam": lib.SlPrParam, "OpCtxW": lib.SlCtxW}[nd[1]]
             cfg = {"processor": cls, "parameters": dict(nd[2])}
             if len(nd) > 3 and nd[3] is not None:
                 cfg["context_key"] = nd[3]
@@ -223,6 +223,12 @@ def curated() -> List[Dict[str, Any]]:
     # a node that requires a key an earlier node deleted AND re-creates that very key itself
     T.append(_t("c.delete-then-self-recreate-probe", INT, [("offset", "v1", "f0")], [("delete", "offset"), ("comp", "PrReq", [], "offset"), ("comp", "PrParam", [], "out")]))
     T.append(_t("c.delete-then-self-recreate-template", INT, [("a", "s0", "f0"), ("b", "s1", "f1")], [("delete", "a"), ("template", ["a", "b"], "a"), ("comp", "OpAddDef", [])]))
+    # a slicer over a context-writing operation: the key written for the last element is what later nodes read
+    T.append(_t("c.slice-ctxw-feeds", COLL, [("out", "v1", "f0")], [("slice", "OpCtxW", []), ("rename", "out", "addend"), ("slice", "OpAdd", [])]))
+    # an EMPTY collection is data like any other: a source fed with it must be rejected, a slicer maps it to an empty one
+    T.append(_t("c.empty-coll-into-source", ("coll", []), [], [("comp", "SrcD", []), ("comp", "OpAddDef", [])]))
+    T.append(_t("c.empty-coll-sliced-then-source", ("coll", []), [("addend", "v1", "f0")], [("slice", "OpAdd", [("addend", "v2", "f1")]), ("comp", "SrcD", []), ("comp", "OpAddDef", [])]))
+    T.append(_t("c.empty-coll-sum", ("coll", []), [], [("comp", "OpSum", []), ("comp", "OpAddDef", [])]))
     # the subclass is lost when an operation declared on the base type sits in between (also across a context-only node)
     T.append(_t("c.sub-decl-chain", INT, [], [("comp", "OpSubDecl", []), ("comp", "OpNeedSub", []), ("comp", "OpAddDef", [])]))
     T.append(_t("c.sub-lost-through-base-op", INT, [("addend", "v1", "f0")], [("comp", "OpSubDecl", []), ("comp", "OpAddDef", []), ("comp", "OpNeedSub", [])]))
